@@ -440,6 +440,7 @@ func writeEvidence(id, tier string, seed int, spec *CheckSpec, runs []HarnessRun
 		harnesses = append(harnesses, map[string]interface{}{
 			"harness": hr.Name, "package": hr.Pkg, "bounds": runs[i].Params, "feasible_paths": hr.Paths, "outcomes": hr.Outcomes,
 			"ssa_instructions": hr.Steps, "assertions_reached": len(hr.AssertReach), "wall_s": round2(hr.WallS), "note": runs[i].Note,
+			"sat_answers_found_under_narrowed_ranges_after_unknown": hr.Narrowed,
 		})
 	}
 	for _, r := range reports {
